@@ -316,6 +316,37 @@ pub fn merge(ctxs: Vec<Ctx>) -> Agg {
     a
 }
 
+impl Agg {
+    /// adds the counts and findings of a further (disjoint) family of cases
+    pub fn absorb(&mut self, e: Agg) {
+        self.evals += e.evals;
+        self.lib_calls += e.lib_calls;
+        self.traces += e.traces;
+        self.distinct_cases += e.distinct_cases;
+        self.distinct_nontrivial += e.distinct_nontrivial;
+        self.distinct_outcomes += e.distinct_outcomes;
+        for (k, f) in e.findings {
+            match self.findings.get_mut(&k) {
+                Some(x) => x.count += f.count,
+                None => {
+                    self.findings.insert(k, f);
+                }
+            }
+        }
+        for s in e.samples {
+            if self.samples.len() < 5 {
+                self.samples.push(s);
+            }
+        }
+        for (k, v) in e.extra {
+            *self.extra.entry(k).or_insert(0) += v;
+        }
+        if self.hang.is_none() {
+            self.hang = e.hang;
+        }
+    }
+}
+
 pub fn nthreads() -> usize {
     std::env::var("VERIF_THREADS")
         .ok()
